@@ -7,7 +7,7 @@ import random, json, sys, os
 from ..harness import coq, impl
 
 pid = 'C17'
-gen_modules = ['tr_lintexec', 'tr_rest_lintcontract', 'tr_rest_lintrules', 'tr_rest_lintglue', 'tr_rest_linttables', 'tr_rest_lintmisc']
+gen_modules = ['tr_lintexec', 'tr_lint', 'tr_rest_lintcontract', 'tr_rest_lintrules', 'tr_rest_lintglue', 'tr_rest_linttables', 'tr_rest_lintmisc']
 model_targets = ['Sem/LintExec.v']
 hand_modelled = ['coq/Sem/LintExec.v: the tail of deal/linter/_template.py, Rule._validate, the test of get_pre.handle_call (hand-written; source pinned by tools/py2coq/lintexec_pins.json)',
                  'ast.literal_eval / astroid (extraction of literal values, resolution of the callee) and the runtime Validator itself are oracles: the runtime outcome is obtained by '
@@ -109,19 +109,26 @@ def gen_case(rnd):
             lines.append(f'@deal.{c}({v})')
     lines.append(f'def g({sig}):')
     rets = [rnd.choice(LITS) for _ in range(rnd.randint(1, 3))]
+    is_gen = rnd.random() < .25 and not examples and not ensures       # a generator: every yielded literal is judged like a returned one
+    kw = 'yield' if is_gen else 'return'
     for i, v in enumerate(rets):
         if i + 1 < len(rets):
-            lines.append(f'    if a == {i}:'); lines.append(f'        return {v}')
+            lines.append(f'    if a == {i}:'); lines.append(f'        {kw} {v}')
         else:
-            lines.append(f'    return {v}')
+            lines.append(f'    {kw} {v}')
         if posts: items.append({'kind': 'post', 'row': len(lines), 'value': v, 'validators': posts})
+    quiet = []
+    if is_gen:
+        # delegation: the values come from the iterable one by one; the collection itself is not a yielded value
+        lines.append(f'    yield from [{rnd.choice(LITS)}, {rnd.choice(LITS)}]'); quiet.append(len(lines))
+        lines.append(f'    yield from ({rnd.choice(LITS)},)'); quiet.append(len(lines))
     lines += ['', '', '@deal.safe', 'def caller():']
     for _ in range(rnd.randint(1, 4)):
         a, k = call()
         lines.append(f'    g({fmt(a, k)})')
         items.append({'kind': 'pre', 'row': len(lines), 'args': a, 'kwargs': k, 'sig': sig, 'validators': [['pre', p] for p in pres]})
     lines.append('    return 0')
-    return {'src': '\n'.join(lines) + '\n', 'items': items, 'helpers': ''}
+    return {'src': '\n'.join(lines) + '\n', 'items': items, 'helpers': '', 'quiet_rows': quiet}
 
 
 DEFAULT = {'post': 'post contract error', 'pre': 'pre contract error', 'example': 'example violates contract'}
@@ -177,6 +184,11 @@ def run(ctx, fr, model_available=True, cases=None):
             if isinstance(r[be], dict):
                 fr.violations.append({'scenario': {'src': c['src']}, 'impl': r[be], 'what': f'the linter raised ({be} back-end): {r[be]["crash"][:300]}', 'signature': None})
         if isinstance(r['ast'], dict) or isinstance(r['astroid'], dict): continue
+        for be in ('ast', 'astroid'):
+            stray = [f for f in r[be] if f[0] in (11, 12, 13) and f[1] in c.get('quiet_rows', [])]
+            if stray:
+                fr.violations.append({'scenario': {'src': c['src']}, 'impl': stray, 'signature': None,
+                                      'what': f'the linter ({be} back-end) reports {stray} at a `yield from` line: no literal value is returned or yielded there'})
         for it, outs in zip(c['items'], r['items']):
             if isinstance(outs, dict):
                 fr.errors.append('C17 harness: ' + outs['harness_error']); continue
